@@ -124,12 +124,13 @@ theorem emitted_names_ok {ρ : Type} (ev : Evalr ρ) (fuel : Nat) (st : St ρ) (
 
 /-- **what the transformer generates is well-formed and a fixed point — hypotheses on the input only**: for every
     document tree whose elements have unique attribute names (no `class` among them) and XML Names, every
-    evaluator, every initial state without templates, every fuel and every successful result -/
+    evaluator, every initial state without templates and without stored defaults, every fuel and every successful result -/
 theorem transform_output_wellformed_and_fixed {ρ : Type} (ev : Evalr ρ) (fuel : Nat) (st : St ρ) (ks : Nodes)
-    (evs : List Ev) (bb : Option Gen.BoundingBox) (hst : st.originals = []) (hks : NodesT InputElemOk ks)
+    (evs : List Ev) (bb : Option Gen.BoundingBox) (hst : st.originals = []) (hdf : NoDefaults st)
+    (hks : NodesT InputElemOk ks)
     (h : (transformDoc ev fuel st ks).2.2 = .ok (evs, bb)) :
     Spec.wfContent (write evs) = true ∧ passThroughW (write evs) = some (write evs) :=
-  transformDoc_wellformed_fixed_of_input' ev fuel st ks evs bb hst hks h
+  transformDoc_wellformed_fixed_of_input' ev fuel st ks evs bb hst hdf hks h
 
 /-- **a whole successful run, strict form**: `transformDoc` succeeds, the events to be written (`finalEvents`: the
     pass-through of real SVG as it is, anything else after the root rewrite `postprocess`) exist and the guarded
@@ -137,11 +138,11 @@ theorem transform_output_wellformed_and_fixed {ρ : Type} (ev : Evalr ρ) (fuel 
     read-then-write. Hypotheses on the input tree and the initial state only. -/
 theorem transform_written_wellformed_strict_and_fixed {ρ : Type} (ev : Evalr ρ) (fuel : Nat) (st st' : St ρ)
     (ks : Nodes) (real : Bool) (evs fin : List Ev) (bb : Option Gen.BoundingBox) (cfg : Doc.RootCfg) (out : Str)
-    (hst : st.originals = []) (hks : NodesT InputElemOk ks)
+    (hst : st.originals = []) (hdf : NoDefaults st) (hks : NodesT InputElemOk ks)
     (h : transformDoc ev fuel st ks = (real, st', .ok (evs, bb)))
     (hf : finalEvents cfg real evs bb = some fin) (hw : writeChecked fin = some out) :
     Spec.wfContentStrict out = true ∧ passThroughW out = some out :=
-  transformDoc_written_strict ev fuel st st' ks real evs fin bb cfg out hst hks h hf hw
+  transformDoc_written_strict ev fuel st st' ks real evs fin bb cfg out hst hdf hks h hf hw
 
 instance (e : Elem) : Decidable (InputElemOk e) := by
   unfold InputElemOk UStrong Attrs.NodupKeys; infer_instance
@@ -155,7 +156,7 @@ theorem demo_input_ok : NodesT InputElemOk demoDoc := by
 example (evs : List Ev) (bb : Option Gen.BoundingBox)
     (h : (transformDoc simpleEvalr 40 { rng := 0, scopes := [{}] } demoDoc).2.2 = .ok (evs, bb)) :
     Spec.wfContent (write evs) = true ∧ passThroughW (write evs) = some (write evs) :=
-  transform_output_wellformed_and_fixed _ _ _ _ evs bb rfl demo_input_ok h
+  transform_output_wellformed_and_fixed _ _ _ _ evs bb rfl (by simp [NoDefaults]) demo_input_ok h
 
 /-- … and it does generate something: the run succeeds with this text, which the recogniser accepts by evaluation too -/
 example : write demoEvs =
@@ -168,7 +169,7 @@ example (real : Bool) (st' : St Nat) (evs fin : List Ev) (bb : Option Gen.Boundi
     (h : transformDoc simpleEvalr 40 { rng := 0, scopes := [{}] } demoDoc = (real, st', .ok (evs, bb)))
     (hf : finalEvents cfg real evs bb = some fin) (hw : writeChecked fin = some out) :
     Spec.wfContentStrict out = true ∧ passThroughW out = some out :=
-  transform_written_wellformed_strict_and_fixed _ _ _ st' _ real evs fin bb cfg out rfl demo_input_ok h hf hw
+  transform_written_wellformed_strict_and_fixed _ _ _ st' _ real evs fin bb cfg out rfl (by simp [NoDefaults]) demo_input_ok h hf hw
 
 /-! ### the root rewrite -/
 
